@@ -164,6 +164,8 @@ def _requests_small(prog, case, facet):
         rng = random.Random(case["pseed"] + 1)
         return [G.random_request(rng, keys) for _ in range(4)]
     reqs = [list(c) for r in range(1, n + 1) for c in itertools.combinations(keys, r)]
+    if facet in ("C01", "C02", "C03"):
+        reqs += [[], [[], []], [[], [keys[-1]]]]          # the empty subset, in flat and nested form
     if facet == "C01":
         reqs += [keys[-1], [[keys[0]], [keys[-1], keys[0]]], [[[keys[-1]]]]]  # bare key, nesting, repeats
     return reqs
